@@ -9,6 +9,7 @@ the requested mesh.  (2) Phonopy.run_mesh with mesh symmetry on/off: thermal pro
 from __future__ import annotations
 
 import itertools
+import json
 import os
 
 import numpy as np
@@ -58,6 +59,13 @@ def plan(tier, seed):
     groups.append([{"kind": "phys", "xtal": "ortho-P-2", "mesh": [13, 12, 11], "shift": 0, "gc": False, "tr": True}])
     groups.append([{"kind": "phys", "xtal": "NaCl-conv-8", "mesh": [20, 20, 20], "shift": 0, "gc": False, "tr": True, "noprim": True}])
     groups.append([{"kind": "phys", "xtal": "rutile-6", "mesh": [24, 24, 24], "shift": 0, "gc": True, "tr": True}])
+    # magnetic order lowering the point group (fcc type-I antiferromagnet, layered bcc antiferromagnet)
+    g = []
+    for name, mag in (("fcc-conv-4", [1.0, -1.0, -1.0, 1.0]), ("bcc-conv-2", [1.0, -1.0]), ("fcc-conv-4", [1.0, 1.0, 1.0, 1.0])):
+        for mesh in ([2, 2, 2], [3, 3, 3], [4, 4, 2], [2, 3, 4]):
+            for gc in (False, True):
+                g.append({"kind": "phys", "xtal": name, "mesh": mesh, "shift": 0, "gc": gc, "tr": True, "mag": mag})
+    groups.append(g)
     # histories inside one process: crystals whose point groups have the same order but different matrices, same mesh
     # configuration, alternating (a cache keyed too coarsely would hand one crystal the other's mapping table)
     for mesh in ([2, 2, 2], [3, 3, 3], [4, 4, 4], [2, 2, 3], [4, 4, 2]):
@@ -193,12 +201,23 @@ def run_grid(case, seed):
 
 
 def run_phys(case, seed):
-    ck = ("ph", case["xtal"], bool(case.get("nosym")), case.get("nac"), bool(case.get("noprim")))
+    ck = ("ph", case["xtal"], bool(case.get("nosym")), case.get("nac"), bool(case.get("noprim")), json.dumps(case.get("mag")))
     if ck not in _cache:
         c = phx.xtal(case["xtal"])
         S = [[2, 0, 0], [0, 2, 0], [0, 0, 2]] if len(c["symbols"]) <= 2 else [[1, 0, 0], [0, 1, 0], [0, 0, 1]]
-        ph = phx.make_phonopy(c, S, c["centring"][0] if (c["centring"] and not case.get("noprim")) else None, is_symmetry=not case.get("nosym"))
-        fc = phx.supercell_fc(ph, phx.model_for(ph, "nn", seed))  # ("short" is below the nearest-neighbour distance for several of these cells: flat zero spectrum)
+        if case.get("mag"):
+            # collinear magnetic order that lowers the point group; the springs depend on the spin species, so the force
+            # constants have the magnetic symmetry only
+            S = [[2, 0, 0], [0, 2, 0], [0, 0, 2]]
+            ph = phx.make_phonopy(c, S, None, magmoms=case["mag"])
+            from vtk.ref import springs as SPm
+
+            sc_ = ph.supercell
+            lab = ["%s%s" % (s_, "u" if m_ > 0 else "d") for s_, m_ in zip(sc_.symbols, np.ravel(sc_.magnetic_moments))]
+            fc = SPm.folded_fc(np.asarray(sc_.cell), sc_.positions, lab, phx.model_for(ph, "nn", seed))
+        else:
+            ph = phx.make_phonopy(c, S, c["centring"][0] if (c["centring"] and not case.get("noprim")) else None, is_symmetry=not case.get("nosym"))
+            fc = phx.supercell_fc(ph, phx.model_for(ph, "nn", seed))  # ("short" is below the nearest-neighbour distance for several of these cells: flat zero spectrum)
         if case.get("nosym"):
             # lower the symmetry of the force constants (keep index-permutation symmetry and the sum rule): the object was
             # told not to use crystal symmetry, so only time reversal may be used to reduce the mesh
@@ -238,7 +257,12 @@ def run_phys(case, seed):
         ph.run_total_dos(sigma=0.3, freq_min=0.0, freq_max=12.0, freq_pitch=0.5, use_tetrahedron_method=False)
         dos = ph.get_total_dos_dict()["total_dos"]
         mom = [float((w[:, None] * np.abs(f) ** k).sum() / w.sum()) for k in (0, 1, 2)]
-        res[ms] = np.concatenate([tp["free_energy"], tp["entropy"], tp["heat_capacity"], dos, mom])
+        # the same sums restricted to subsets of bands (weights must still go with their own q-point)
+        nb_ = f.shape[1]
+        ph.run_thermal_properties(t_min=0, t_max=900, t_step=300, cutoff_frequency=1e-3, band_indices=[[0, nb_ - 1], [1]] if nb_ > 2 else [[0], [nb_ - 1]])
+        tpb = ph.get_thermal_properties_dict()
+        res[ms] = np.concatenate([tp["free_energy"], tp["entropy"], tp["heat_capacity"], dos, mom,
+                                  np.ravel(tpb["free_energy"]), np.ravel(tpb["entropy"]), np.ravel(tpb["heat_capacity"])])
         if np.prod(case["mesh"]) <= 64 and not case.get("nac"):
             # mode-projected sums: the components add up to the total for the same mesh (eigenvectors are normalised)
             ph.run_mesh(case["mesh"], shift=shift, is_time_reversal=case["tr"], is_mesh_symmetry=ms, is_gamma_center=case["gc"], with_eigenvectors=True)
